@@ -1,5 +1,6 @@
 (* C02 — a patch never touches configuration outside the generators' ACL.
-   Property theorems only; the proofs are in Proofs/AclPipelineProofs.v, the predicates in
+   Property theorems only; the proofs are in Proofs/AclPipelineProofs.v, Proofs/AclDeviceProofs.v (top level of
+   the device), Proofs/AclPatchRel2.v and Proofs/AclDeviceNested.v (every depth), the predicates in
    Spec/P_C02.v, the model of _diff_and_patch(old, new, acl_rules, ...) in Model/AclPipeline.v.
 
    The general theorems hold for EVERY row matcher of the ACL side (amatch_, asrc, arev, anorm)
@@ -9,7 +10,7 @@
 From Coq Require Import List String Bool Arith ZArith.
 From Annet Require Import Base.Str Base.Tree Model.Pattern Model.Rulebook Model.Diff Model.Order Model.Patch
      Model.Blocks Model.Pipeline Model.Device Model.Acl Model.AclPipeline Spec.PipelineCase Spec.P_C01 Spec.P_C02
-     Proofs.AclPipelineProofs Proofs.AclDeviceProofs.
+     Proofs.AclPipelineProofs Proofs.AclDeviceProofs Proofs.AclPatchRel2 Proofs.AclDeviceNested.
 Import ListNotations.
 Open Scope string_scope.
 
@@ -173,6 +174,223 @@ Theorem C02_device_slot_stays_occupied :
 Proof. exact exec_occupied. Qed.
 Print Assumptions C02_device_slot_stays_occupied.
 
+(* ------------------------------------------------------------------------------------ *)
+(* (b), (c) on the device for rows at EVERY depth (Proofs/AclDeviceNested.v)             *)
+
+(* The cursor invariant of Device.exec_path.  Executing the command path hs ++ q (q not empty):
+   the block reached by entering the first entries with texts hs is afterwards what executing q
+   in it gives, under the rules that govern it (and nothing happens if no rule knows a header) ... *)
+Theorem C02_device_cursor :
+  forall rmatch rreverse is_exit hs rs q f, q <> [] ->
+    descend hs (exec_path rmatch rreverse is_exit rs (hs ++ q) f) =
+    match rwalk rmatch rs hs with
+    | Some rs' => option_map (exec_path rmatch rreverse is_exit rs' q) (descend hs f)
+    | None => descend hs f
+    end.
+Proof. exact exec_path_cursor. Qed.
+Print Assumptions C02_device_cursor.
+
+(* ... a longer path that leaves the chain hs does not touch that block at all ... *)
+Theorem C02_device_cursor_elsewhere :
+  forall rmatch rreverse is_exit hs rs p f,
+    List.length hs < List.length p -> firstn (List.length hs) p <> hs ->
+    descend hs (exec_path rmatch rreverse is_exit rs p f) = descend hs f.
+Proof. exact exec_path_elsewhere. Qed.
+Print Assumptions C02_device_cursor_elsewhere.
+
+(* ... and on every level a path that works inside the block c keeps the rows of the level and leaves
+   every sibling of c, with its whole subtree, exactly as it was *)
+Theorem C02_device_siblings_untouched :
+  forall rmatch rreverse is_exit rs c c2 rest f,
+    keys (exec_path rmatch rreverse is_exit rs (c :: c2 :: rest) f) = keys f /\
+    (forall r, r <> c -> tfind r (exec_path rmatch rreverse is_exit rs (c :: c2 :: rest) f) = tfind r f) /\
+    tfind c (exec_path rmatch rreverse is_exit rs (c :: c2 :: rest) f) =
+    match match_row rmatch c rs with
+    | Some (_, crs) => option_map (fun t => T (exec_path rmatch rreverse is_exit crs (c2 :: rest) (kids t))) (tfind c f)
+    | None => tfind c f
+    end.
+Proof.
+  intros. split; [apply exec_path_level_rows|]. split; [intros r Hr; apply exec_path_sibling; exact Hr | apply exec_path_block].
+Qed.
+Print Assumptions C02_device_siblings_untouched.
+
+(* Chains of blocks, for ANY command stream: if every path of the stream leaves the chain hs alone
+   ([pspares]: on the level of hi a command is the header hi itself - the block is entered and keeps its
+   children, except those of %rewrite rules -, an exit word, a direct command of another slot, or a
+   removal command other than that of hi; below, recursively) and keeps the property P of the block at
+   the end of the chain, then the chain and P survive the whole stream. *)
+Theorem C02_device_chain_kept :
+  forall rmatch rreverse is_exit (P : rset -> forest -> Prop),
+    (forall rs g, P rs g -> P rs (enter rmatch rs g)) ->
+    forall hs rs ps f,
+      chain rmatch rs hs P f ->
+      (forall p, In p ps ->
+                 pspares rmatch rreverse is_exit rs hs
+                         (fun rs' q => forall g, P rs' g -> P rs' (exec_path rmatch rreverse is_exit rs' q g)) p) ->
+      chain rmatch rs hs P (exec rmatch rreverse is_exit rs ps f).
+Proof. exact exec_chain. Qed.
+Print Assumptions C02_device_chain_kept.
+
+(* (c) at every depth, every row matcher, ACL, rulebook, ordering, block formatter, old and new.
+   The device holds old.  hs = h1 .. hk is a chain of blocks of old ([chain]: every hi occupies its
+   (rule, key) slot on its level and is not the row of a %rewrite rule), each passed by the ACL, and the
+   diff the patch is made from neither removes nor replaces any of them ([dchain]: on the diff level at
+   the place of hi every entry of the slot of hi is hi itself and is not REMOVED / MOVED; removal commands
+   of that level are matched by no rule and are that of the slot of hi only for entries of that slot) -
+   "all ancestors survive", which cannot be dropped: C02_cant_delete_ancestor_refuted below.
+   In the block reached, s is the slot of a row r governed by a cant_delete ACL rule ([Rc]: r's rule is not
+   %ordered, its removal command is that of no other REMOVED / MOVED entry of that diff level; [Pc]: s
+   is occupied in old, entries of s share the removal command and none is the row of a %rewrite rule).
+   Then after the whole command stream of the patch the chain of blocks is still there and the slot s
+   in the block reached is still occupied.  (For hs = [] see C02_cant_delete_kept_partial, which states the
+   condition on removal commands over the rows of old - every REMOVED entry of the diff is one - and needs
+   no %rewrite condition, nothing being entered above the top level.) *)
+Theorem C02_cant_delete_kept :
+  forall amatch_ asrc arev anorm rmatch rsrc rrev block_exit rreverse is_exit f ars rs ordering old new p hs r s,
+    is_block_family f = true ->
+    (forall e, In e (family_exits f) -> is_exit e = true) ->
+    diff_regular (acl_make_diff amatch_ asrc arev anorm rmatch ars rs
+                    (acl_filter amatch_ asrc arev anorm ars old) (acl_filter amatch_ asrc arev anorm ars new)) = true ->
+    snd (acl_diff_and_patch amatch_ asrc arev anorm rmatch rsrc rrev block_exit rreverse ars rs ordering old new) = POk p ->
+    chain rmatch rs hs (Pc rmatch rreverse s) old ->
+    dchain amatch_ asrc arev anorm rmatch rreverse ars rs hs
+           (acl_make_diff amatch_ asrc arev anorm rmatch ars rs
+              (acl_filter amatch_ asrc arev anorm ars old) (acl_filter amatch_ asrc arev anorm ars new))
+           (Rc amatch_ asrc arev anorm rmatch rreverse r s) ->
+    chain rmatch rs hs (Pc rmatch rreverse s) (exec rmatch rreverse is_exit rs (cmd_paths f p) old).
+Proof. exact cant_delete_kept_deep. Qed.
+Print Assumptions C02_cant_delete_kept.
+
+(* the same read with tfind, as Spec/P_C02.v does: the blocks hs can be entered one after the other
+   in the device after the patch, and the slot of r is occupied in the block reached *)
+Theorem C02_cant_delete_kept_descend :
+  forall amatch_ asrc arev anorm rmatch rsrc rrev block_exit rreverse is_exit f ars rs ordering old new p hs r s,
+    is_block_family f = true ->
+    (forall e, In e (family_exits f) -> is_exit e = true) ->
+    diff_regular (acl_make_diff amatch_ asrc arev anorm rmatch ars rs
+                    (acl_filter amatch_ asrc arev anorm ars old) (acl_filter amatch_ asrc arev anorm ars new)) = true ->
+    snd (acl_diff_and_patch amatch_ asrc arev anorm rmatch rsrc rrev block_exit rreverse ars rs ordering old new) = POk p ->
+    chain rmatch rs hs (Pc rmatch rreverse s) old ->
+    dchain amatch_ asrc arev anorm rmatch rreverse ars rs hs
+           (acl_make_diff amatch_ asrc arev anorm rmatch ars rs
+              (acl_filter amatch_ asrc arev anorm ars old) (acl_filter amatch_ asrc arev anorm ars new))
+           (Rc amatch_ asrc arev anorm rmatch rreverse r s) ->
+    exists rs' g, rwalk rmatch rs hs = Some rs' /\
+                  descend hs (exec rmatch rreverse is_exit rs (cmd_paths f p) old) = Some g /\
+                  occupied rmatch rs' s g = true.
+Proof.
+  intros until s. intros Hf Hex Hreg Hp Hc Hd.
+  destruct (chain_descend rmatch _ hs rs _ (cant_delete_kept_deep amatch_ asrc arev anorm rmatch rsrc rrev block_exit rreverse
+              is_exit f ars rs ordering old new p hs r s Hf Hex Hreg Hp Hc Hd)) as (rs' & g & H1 & H2 & H3 & _).
+  exists rs', g. repeat split; assumption.
+Qed.
+Print Assumptions C02_cant_delete_kept_descend.
+
+(* (b) at every depth.  Along a chain hs of blocks of old as above, an entry (u, t) of the block reached
+   that the ACL does not pass (or that no rule knows) is, after the whole command stream of the patch,
+   still the first entry with text u of that block, with exactly the same subtree t - provided no entry of
+   the diff level at its place is in the slot of u (the ACL does not split the slot: slot_closed; without
+   it the statement is false, C02_slot_split_refuted) and no removal command of that level hits u ([Rb]);
+   [Pb]: (u, t) is the first entry with text u in old and u is not the row of a %rewrite rule.
+   (For hs = [] see C02_uncovered_untouched_partial.) *)
+Theorem C02_uncovered_untouched :
+  forall amatch_ asrc arev anorm rmatch rsrc rrev block_exit rreverse is_exit f ars rs ordering old new p hs u t,
+    is_block_family f = true ->
+    (forall e, In e (family_exits f) -> is_exit e = true) ->
+    diff_regular (acl_make_diff amatch_ asrc arev anorm rmatch ars rs
+                    (acl_filter amatch_ asrc arev anorm ars old) (acl_filter amatch_ asrc arev anorm ars new)) = true ->
+    snd (acl_diff_and_patch amatch_ asrc arev anorm rmatch rsrc rrev block_exit rreverse ars rs ordering old new) = POk p ->
+    chain rmatch rs hs (Pb rmatch u t) old ->
+    dchain amatch_ asrc arev anorm rmatch rreverse ars rs hs
+           (acl_make_diff amatch_ asrc arev anorm rmatch ars rs
+              (acl_filter amatch_ asrc arev anorm ars old) (acl_filter amatch_ asrc arev anorm ars new))
+           (Rb amatch_ asrc arev anorm rmatch rreverse u t) ->
+    chain rmatch rs hs (Pb rmatch u t) (exec rmatch rreverse is_exit rs (cmd_paths f p) old).
+Proof. exact uncovered_untouched_deep. Qed.
+Print Assumptions C02_uncovered_untouched.
+
+(* The ancestor exception, positively: a block (h, t) of old all of whose entries in the diff are REMOVED
+   (rule not `permanent`, removal commands of its level matched by no rule) is, after the whole stream,
+   either untouched and alone in its slot or gone - the patch never re-creates or enters it ([PR], [RR]).
+   Rests on Proofs/AclPatchRel2.v: only the `permanent` logic answers a REMOVED entry with a direct
+   command.  So "the ancestors survive" in (b), (c) is decided by the diff, not by the order of commands. *)
+Theorem C02_removed_block_not_recreated :
+  forall amatch_ asrc arev anorm rmatch rsrc rrev block_exit rreverse is_exit f ars rs ordering old new p hs h t s,
+    is_block_family f = true ->
+    (forall e, In e (family_exits f) -> is_exit e = true) ->
+    diff_regular (acl_make_diff amatch_ asrc arev anorm rmatch ars rs
+                    (acl_filter amatch_ asrc arev anorm ars old) (acl_filter amatch_ asrc arev anorm ars new)) = true ->
+    snd (acl_diff_and_patch amatch_ asrc arev anorm rmatch rsrc rrev block_exit rreverse ars rs ordering old new) = POk p ->
+    chain rmatch rs hs (PR rmatch h t s) old ->
+    dchain amatch_ asrc arev anorm rmatch rreverse ars rs hs
+           (acl_make_diff amatch_ asrc arev anorm rmatch ars rs
+              (acl_filter amatch_ asrc arev anorm ars old) (acl_filter amatch_ asrc arev anorm ars new))
+           (RR rmatch rreverse h s) ->
+    chain rmatch rs hs (PR rmatch h t s) (exec rmatch rreverse is_exit rs (cmd_paths f p) old).
+Proof. exact removed_block_deep. Qed.
+Print Assumptions C02_removed_block_not_recreated.
+
+(* a direct item of the patch stands for a REMOVED entry of the diff only under the `permanent` logic *)
+Theorem C02_patch_items_sharp :
+  forall rmatch rsrc rrev block_exit rreverse D ord t,
+    make_patch rmatch rsrc rrev block_exit rreverse (make_pre D) ord = POk t -> pt_rel2 rreverse t D.
+Proof. exact make_patch_rel2. Qed.
+Print Assumptions C02_patch_items_sharp.
+
+(* THE CLAUSES OF P_C02, as evaluated on real outputs, for the model pipeline - all rows of old, every depth.
+   [c_deep_guard x] / [b_deep_guard x] (computable; Proofs/AclDeviceNested.v section 6) state the hypotheses
+   above for every row of old at once: block formatter, regular diff, and walking old, the ACL, the
+   rulebook and the diff together, for every passed row the rulebook knows
+     (c) if it is cant_delete: one attribute set per rule text on its level, rule neither %ordered nor
+         %rewrite, removal command that of no other REMOVED / MOVED entry of the diff level;
+     (b) for every row the ACL does not pass: first entry with its text, not a %rewrite row, no diff entry in
+         its slot (slot_closed), no removal command of the level hits it;
+     and if it has children: either it is followed (occupies its slot, not %rewrite, the diff neither removes
+         nor replaces it, removal commands unambiguous) and the same holds below, or the diff removes it
+         (then it is untouched or gone, C02_removed_block_not_recreated; sibling rows below distinct).
+   Not covered (guard false): a block with children that is cant_delete / `permanent` and absent from new
+   while new holds another row of its slot, and blocks of %rewrite rules. *)
+Theorem C02_cant_delete_kept_of_model :
+  forall x ordering, c_deep_guard x = true -> C02_c x (model_out x ordering) = true.
+Proof. exact C02_c_deep_model. Qed.
+Print Assumptions C02_cant_delete_kept_of_model.
+
+Theorem C02_uncovered_untouched_of_model :
+  forall x ordering, b_deep_guard x = true -> C02_b x (model_out x ordering) = true.
+Proof. exact C02_b_deep_model. Qed.
+Print Assumptions C02_uncovered_untouched_of_model.
+
+(* the FULL form of (c), without the ancestor exception (clause cl_c_deep of the run-time predicate): it holds
+   as soon as, moreover, no passed cant_delete row sits inside a block that the diff removes ([c_full_guard]) -
+   the class of the open finding C02_cant_delete_ancestor_refuted is the only obstacle *)
+Theorem C02_cant_delete_kept_full_of_model :
+  forall x ordering, c_full_guard x = true -> C02_c_deep x (model_out x ordering) = true.
+Proof. exact C02_c_full_model. Qed.
+Print Assumptions C02_cant_delete_kept_full_of_model.
+
+Theorem C02_holds_of_model :
+  forall x ordering, c_full_guard x = true -> b_deep_guard x = true -> P_C02 x (model_out x ordering) = true.
+Proof.
+  intros x ordering Hc Hb. unfold P_C02.
+  assert (Hreg : diff_regular (p_full_diff x) = true).
+  { unfold c_full_guard in Hc. rewrite !andb_true_iff in Hc. tauto. }
+  rewrite (C02_a_model x ordering Hreg), (C02_a_diff_model x ordering), (C02_b_deep_model x ordering Hb), (C02_c_full_model x ordering Hc).
+  reflexivity.
+Qed.
+Print Assumptions C02_holds_of_model.
+
+(* all clauses together: the predicate with the ancestor exception holds of the model pipeline *)
+Theorem C02_weak_holds_of_model :
+  forall x ordering, c_deep_guard x = true -> b_deep_guard x = true -> P_C02_weak x (model_out x ordering) = true.
+Proof.
+  intros x ordering Hc Hb. unfold P_C02_weak.
+  assert (Hreg : diff_regular (p_full_diff x) = true).
+  { unfold c_deep_guard in Hc. rewrite !andb_true_iff in Hc. tauto. }
+  rewrite (C02_a_model x ordering Hreg), (C02_a_diff_model x ordering), (C02_b_deep_model x ordering Hb), (C02_c_deep_model x ordering Hc).
+  reflexivity.
+Qed.
+Print Assumptions C02_weak_holds_of_model.
+
 (* the shared report evaluated by the harness is the list of the predicates of Spec/P_C02.v *)
 Theorem C02_report_is_the_predicates :
   forall c, c2_report c =
@@ -224,6 +442,89 @@ Proof. vm_compute. split; reflexivity. Qed.
 Example C02_b_top_guard_not_vacuous : b_top_guard w0 "vlan 5" (T []) = true.
 Proof. vm_compute. reflexivity. Qed.
 
+(* non-vacuity of the full-depth theorems: a cant_delete row ("pwd x") and a row outside the ACL ("descr foo
+   bar") two blocks deep, next to a non-empty block the diff removes ("peer b") *)
+Definition blk (pat : string) (k : list prule) := PRule pat false (Attrs pat LDefault DDefault true false) k [].
+Definition w4_rules : rset := ([blk "bgp *" [blk "peer *" [leaf "pwd *"; leaf "descr ~"; leaf "ttl *"]]; leaf "vlan *"], []).
+Definition w4_acl : acl :=
+  [AItem "bgp *" "bgp *" false false None 0 []
+     [AItem "peer *" "peer *" false false None 0 []
+        [AItem "pwd * %cant_delete=1" "pwd *" false false (Some [true]) 0 [] [];
+         AItem "ttl *" "ttl *" false false None 0 [] []]]].
+Definition w4 :=
+  C02In hw hav (acl_of w4_acl) w4_rules
+        [("bgp 1", T [("peer a", T [("pwd x", T []); ("descr foo bar", T []); ("ttl 5", T [])]); ("peer b", T [("ttl 1", T [])])]);
+         ("vlan 5", T [])]
+        [("bgp 1", T [("peer a", T [("ttl 9", T [])])])].
+Example C02_deep_guards_not_vacuous :
+  c_deep_guard w4 = true /\ c_full_guard w4 = true /\ b_deep_guard w4 = true /\ c02_dev_domain w4 = true /\ c02_closed w4 = true /\
+  o_cmds (model_out w4 []) =
+    Some [["bgp 1"]; ["bgp 1"; "undo peer b"]; ["bgp 1"; "peer a"]; ["bgp 1"; "peer a"; "undo ttl 5"];
+          ["bgp 1"; "peer a"; "ttl 9"]; ["bgp 1"; "peer a"; "quit"]; ["bgp 1"; "quit"]] /\
+  after w4 [["bgp 1"]; ["bgp 1"; "undo peer b"]; ["bgp 1"; "peer a"]; ["bgp 1"; "peer a"; "undo ttl 5"];
+            ["bgp 1"; "peer a"; "ttl 9"]; ["bgp 1"; "peer a"; "quit"]; ["bgp 1"; "quit"]] =
+    [("bgp 1", T [("peer a", T [("pwd x", T []); ("descr foo bar", T []); ("ttl 9", T [])])]); ("vlan 5", T [])] /\
+  P_C02 w4 (model_out w4 []) = true.
+Proof. vm_compute. repeat split. Qed.
+
+(* the hypotheses of C02_cant_delete_kept hold for the row "pwd x" below bgp 1 / peer a *)
+Definition w4_s := MI "pwd *" ["x"] (Attrs "pwd *" LDefault DDefault false false).
+Example C02_cant_delete_kept_not_vacuous :
+  chain pm (i_rules w4) ["bgp 1"; "peer a"] (Pc pm (prreverse hw) w4_s) (i_old w4) /\
+  dchain acl_pm acl_psrc (acl_prev hav) (acl_norm hav) pm (prreverse hw) (i_ars w4) (i_rules w4) ["bgp 1"; "peer a"]
+         (p_full_diff w4) (Rc acl_pm acl_psrc (acl_prev hav) (acl_norm hav) pm (prreverse hw) "pwd x" w4_s).
+Proof.
+  split.
+  - cbn [chain]. eexists _, _, _. split; [vm_compute; reflexivity|]. split; [reflexivity|]. split; [vm_compute; reflexivity|].
+    eexists _, _, _. split; [vm_compute; reflexivity|]. split; [reflexivity|]. split; [vm_compute; reflexivity|].
+    split; [vm_compute; reflexivity|]. split.
+    + eapply (slot_det_of_rules_det pm (prreverse hw) _ "pwd x"); vm_compute; reflexivity.
+    + intros row m Hm Hss. unfold is_rewrite.
+      erewrite (slot_attrs_of_rules_det pm _ "pwd x" w4_s); [reflexivity | | | exact Hm | exact Hss]; vm_compute; reflexivity.
+  - cbn [dchain]. eexists _, _, _. split; [vm_compute; reflexivity|]. split; [vm_compute; reflexivity|].
+    split; [apply stable_b_spec; vm_compute; reflexivity|]. split; [apply rev_ok_b_spec; vm_compute; reflexivity|].
+    eexists _, _, _. split; [vm_compute; reflexivity|]. split; [vm_compute; reflexivity|].
+    split; [apply stable_b_spec; vm_compute; reflexivity|]. split; [apply rev_ok_b_spec; vm_compute; reflexivity|].
+    split; [vm_compute; reflexivity|]. split; [vm_compute; reflexivity|]. split; [vm_compute; discriminate|].
+    apply rev_only_b_spec. vm_compute. reflexivity.
+Qed.
+
+(* ... and those of C02_uncovered_untouched for the entry ("descr foo bar", T []) of the same block *)
+Example C02_uncovered_untouched_not_vacuous :
+  chain pm (i_rules w4) ["bgp 1"; "peer a"] (Pb pm "descr foo bar" (T [])) (i_old w4) /\
+  dchain acl_pm acl_psrc (acl_prev hav) (acl_norm hav) pm (prreverse hw) (i_ars w4) (i_rules w4) ["bgp 1"; "peer a"]
+         (p_full_diff w4) (Rb acl_pm acl_psrc (acl_prev hav) (acl_norm hav) pm (prreverse hw) "descr foo bar" (T [])).
+Proof.
+  split.
+  - cbn [chain]. eexists _, _, _. split; [vm_compute; reflexivity|]. split; [reflexivity|]. split; [vm_compute; reflexivity|].
+    eexists _, _, _. split; [vm_compute; reflexivity|]. split; [reflexivity|]. split; [vm_compute; reflexivity|].
+    split; [vm_compute; reflexivity | vm_compute; reflexivity].
+  - cbn [dchain]. eexists _, _, _. split; [vm_compute; reflexivity|]. split; [vm_compute; reflexivity|].
+    split; [apply stable_b_spec; vm_compute; reflexivity|]. split; [apply rev_ok_b_spec; vm_compute; reflexivity|].
+    eexists _, _, _. split; [vm_compute; reflexivity|]. split; [vm_compute; reflexivity|].
+    split; [apply stable_b_spec; vm_compute; reflexivity|]. split; [apply rev_ok_b_spec; vm_compute; reflexivity|].
+    apply (Rb_intro acl_pm acl_psrc (acl_prev hav) (acl_norm hav) pm (prreverse hw) _
+                    [("pwd x", T []); ("descr foo bar", T []); ("ttl 5", T [])]);
+      [left; vm_compute; reflexivity | vm_compute; reflexivity].
+Qed.
+
+(* ... and those of C02_removed_block_not_recreated for the block "peer b" below bgp 1, which the diff removes *)
+Definition w4_sb := MI "peer *" ["b"] (Attrs "peer *" LDefault DDefault true false).
+Definition w4_bgp : forest :=
+  [("peer a", T [("pwd x", T []); ("descr foo bar", T []); ("ttl 5", T [])]); ("peer b", T [("ttl 1", T [])])].
+Example C02_removed_block_not_vacuous :
+  chain pm (i_rules w4) ["bgp 1"] (PR pm "peer b" (T [("ttl 1", T [])]) w4_sb) (i_old w4) /\
+  dchain acl_pm acl_psrc (acl_prev hav) (acl_norm hav) pm (prreverse hw) (i_ars w4) (i_rules w4) ["bgp 1"]
+         (p_full_diff w4) (RR pm (prreverse hw) "peer b" w4_sb).
+Proof.
+  split.
+  - cbn [chain]. eexists _, _, _. split; [vm_compute; reflexivity|]. split; [reflexivity|]. split; [vm_compute; reflexivity|].
+    refine (proj1 (removed_b_spec pm (prreverse hw) (i_ars w4) _ _ _ _ _ (dsub "bgp 1" (p_full_diff w4)) _ _)); vm_compute; reflexivity.
+  - cbn [dchain]. eexists _, _, _. split; [vm_compute; reflexivity|]. split; [vm_compute; reflexivity|].
+    split; [apply stable_b_spec; vm_compute; reflexivity|]. split; [apply rev_ok_b_spec; vm_compute; reflexivity|].
+    refine (proj2 (removed_b_spec pm (prreverse hw) _ _ w4_bgp _ (T [("ttl 1", T [])]) _ _ _ _)); vm_compute; reflexivity.
+Qed.
+
 (* "never removed" is a statement about the (rule, key) slot: a cant_delete row whose key gets a
    new value is rewritten (the REMOVED entry becomes AFFECTED, then UNCHANGED; the ADDED entry of
    the same slot is emitted) - the slot stays occupied, the old text does not.  The literal-text
@@ -264,15 +565,27 @@ Theorem C02_cant_delete_ancestor_refuted :
                      C02_c_deep x (model_out x ordering) = false /\ P_C02_weak x (model_out x ordering) = true.
 Proof. exists w1, []. vm_compute. repeat split. Qed.
 Print Assumptions C02_cant_delete_ancestor_refuted.
+(* on the witness the guard of the form with the exception holds, the guard of the full form does not *)
+Example C02_ancestor_witness_guards : c_deep_guard w1 = true /\ c_full_guard w1 = false /\ b_deep_guard w1 = true.
+Proof. vm_compute. repeat split. Qed.
 
 (* ------------------------------------------------------------------------------------ *)
-(* statements not proved for all inputs (evaluated on every real output by the check)     *)
+(* statements not proved in this generality (evaluated on every real output by the check)  *)
 
 (* (c), device level: inside the device domain the slot of every cant_delete row of old whose
-   ancestors are all still there is occupied after the patch *)
+   ancestors are all still there is occupied after the patch.
+   Proved: C02_cant_delete_kept_of_model - the same conclusion under [c_deep_guard] instead of
+   [c02_dev_domain].  Missing between the two: (1) that the device domain (P_C01.wf_step, stated on the rows
+   of old and of the filtered new) implies the per-level conditions of the guard, which are stated on the
+   entries of the diff (needs: the rows of a diff level are rows of old / of the filtered new at that place,
+   a REMOVED entry is a row of old absent from new - at every depth); (2) blocks with children that are
+   cant_delete or `permanent`, absent from new, while new holds another row of their slot (the logic keeps the
+   old block and drops the new row; needs: one direct item per (rule, key) group of the patch);
+   (3) formatters that are not block formatters. *)
 Definition C02_cant_delete_kept_statement : Prop :=
   forall x ordering, c02_dev_domain x = true -> C02_c x (model_out x ordering) = true.
 (* (b): inside the device domain and under slot_closed every row of old the ACL does not pass, whose
-   ancestors are all still there, is unchanged with its subtree *)
+   ancestors are all still there, is unchanged with its subtree.
+   Proved: C02_uncovered_untouched_of_model, under [b_deep_guard]; missing: as for (c). *)
 Definition C02_uncovered_untouched_statement : Prop :=
   forall x ordering, c02_dev_domain x = true -> c02_closed x = true -> C02_b x (model_out x ordering) = true.
